@@ -229,24 +229,36 @@ def build_model(spec):
     """Model, or ('unbuildable', why) when the operators refuse an expression shape (TypeError) or fold it to a bool."""
     from solvor.cp import Model
 
+    from harness.props.C06_hard import wrap
+
     m = Model()
-    xs = [m.int_var(lo, hi, nm) if nm is not None else m.int_var(lo, hi) for nm, lo, hi in spec["vars"]]
-    for c in spec["cons"]:
+    # names are built at call time (equal but not identical to any other string object with the same text)
+    xs = [m.int_var(lo, hi, "".join(list(nm))) if nm is not None else m.int_var(lo, hi) for nm, lo, hi in spec["vars"]]
+    modes = spec.get("iter") or ["list"] * len(spec["cons"])
+    m._verif_inputs = []   # (the caller's list object, a copy): the library must not modify what it is given
+    for c, mode in zip(spec["cons"], modes):
         k = c[0]
+
+        def arg(seq, sized=False):
+            a = wrap(seq, mode, sized)
+            if isinstance(a, list):
+                m._verif_inputs.append((a, list(a)))
+            return a
+
         try:
             if k == "cmp":
                 lhs, rhs = build_expr(c[1], xs), build_expr(c[2], xs)
                 built = (lhs != rhs) if c[3] else (lhs == rhs)
             elif k == "all_different":
-                built = m.all_different([xs[i] for i in c[1]])
+                built = m.all_different(arg([xs[i] for i in c[1]]))
             elif k in ("sum_eq", "sum_le", "sum_ge"):
-                built = getattr(m, k)([xs[i] for i in c[1]], c[2])
+                built = getattr(m, k)(arg([xs[i] for i in c[1]]), c[2])
             elif k == "circuit":
-                built = m.circuit([xs[i] for i in c[1]])
+                built = m.circuit(arg([xs[i] for i in c[1]]))
             elif k == "no_overlap":
-                built = m.no_overlap([xs[i] for i in c[1]], list(c[2]))
+                built = m.no_overlap(arg([xs[i] for i in c[1]], True), arg(c[2], True))
             elif k == "cumulative":
-                built = m.cumulative([xs[i] for i in c[1]], list(c[2]), list(c[3]), c[4])
+                built = m.cumulative(arg([xs[i] for i in c[1]], True), arg(c[2], True), arg(c[3], True), c[4])
             else:
                 raise AssertionError(k)
         except TypeError as e:
@@ -311,6 +323,22 @@ def run_case(spec):
     info["next_bool_after"] = m._next_bool
     info["nvars_after"] = len(m._vars)
     info["model"] = m
+    # the Model and the caller's lists are inputs: encoding must not change them
+    after = [(v.lb, v.ub, not n.startswith("_"), v.bool_vars.get(v.lb, 0), dict(v.bool_vars)) for n, v in m._vars.items()]
+    bad = None
+    if after != info["vars"] or list(m._vars) != names:
+        bad = "encoding changed the variables of the Model (bounds / literals / names)"
+    elif [walk_constraint(c, names) for c in m._constraints] != info["ast"]:
+        bad = "encoding changed Model._constraints"
+    elif any(len(a) != len(b) or any(x is not y and not (isinstance(x, int) and isinstance(y, int) and x == y) for x, y in zip(a, b))
+             for a, b in m._verif_inputs):
+        bad = "a list passed to a Model constructor was modified"
+    info["alts"] = []
+    if bad is None and spec.get("seq"):
+        from harness.props.C06_hard import call_sequences
+
+        bad, info["alts"] = call_sequences(spec, m, (kind, cnf))
+    info["seq_bad"] = bad
     return info
 
 
@@ -415,8 +443,28 @@ def judge(spec, info):
         return f"Model._next_bool = {info['next_bool']} after creating the variables, expected {nxt}", stats
     if not info["repeat_same"] or info["next_bool_after"] != nxt or info["nvars_after"] != len(spec["vars"]):
         return "a second solve(solver='sat') of the same Model encodes differently / the first one changed the Model", stats
+    if info.get("seq_bad"):
+        return info["seq_bad"], stats
     truth, nfull = cp_solutions(spec)
     stats["cp_solutions"] = len(truth)
+    for alt in info.get("alts", []):
+        # a re-used SATEncoder may number its auxiliaries differently: the clause list must still mean the same
+        from harness.props.C06_hard import Cnf, TooMany as TooMany2
+
+        nv = max([abs(l) for c in alt for l in c] + [nxt - 1])
+        try:
+            ms = Cnf(alt, nv).models([], MAX_MODELS)   # literal numbers skipped by the second encoding are not variables
+        except TooMany2:
+            return "second solve() of one SATEncoder: too many CNF models", stats
+        named_i = [i for i, v in enumerate(spec["vars"]) if is_named(v[0], i)]
+        got = set()
+        for mdl in ms:
+            val = [[x for x, l in bv.items() if mdl[l - 1]] for (_a, _b, _c, _d, bv) in info["vars"]]
+            if any(len(t) != 1 for t in val) or not all(holds(c, [t[0] for t in val]) for c in spec["cons"]):
+                return f"second solve() of one SATEncoder instance hands over clauses with a model decoding to {val}", stats
+            got.add(tuple(val[i][0] for i in named_i))
+        if got != truth:
+            return f"second solve() of one SATEncoder instance loses CP solutions {sorted(truth - got)[:2]}", stats
     if info["kind"] == "unsat":
         stats["cnf_models"] = 0
         if info["status"] != "INFEASIBLE":
@@ -669,7 +717,9 @@ def shrink(spec, fails):
         changed = False
         for k in range(len(cur["cons"])):
             if len(cur["cons"]) > 1:
-                t = {"vars": cur["vars"], "cons": cur["cons"][:k] + cur["cons"][k + 1:]}
+                t = dict(cur, cons=cur["cons"][:k] + cur["cons"][k + 1:])
+                if cur.get("iter"):
+                    t["iter"] = cur["iter"][:k] + cur["iter"][k + 1:]
                 if fails(t):
                     cur, changed = t, True
                     break
@@ -689,10 +739,17 @@ def shrink(spec, fails):
 
 
 def evaluate(spec):
-    res = guarded(run_case, spec, timeout=10)
+    res = guarded(run_case, spec, timeout=30 if "base" in spec else 10)
     if res[0] != "ok":
         return None, f"implementation {res[0]}: {res[1:]}", {}
     info = res[1]
+    if "base" in spec and info.get("built"):
+        from harness.props.C06_hard import judge_big
+
+        j = guarded(judge_big, spec, info, timeout=60)
+        if j[0] != "ok":
+            return info, f"oracle could not finish ({j[0]}: {j[1:]})", {}
+        return info, j[1][0], j[1][1]
     j = guarded(judge, spec, info, timeout=20)
     if j[0] != "ok":
         return info, f"oracle could not finish ({j[0]}: {j[1:]})", {}
@@ -731,22 +788,61 @@ def run(ctx: Ctx):
     if r != ("ok", ("unsat", "INFEASIBLE")):
         ctx.violation(f"a variable with an empty domain (lb > ub) is not reported INFEASIBLE by solve(solver='sat'): {r}",
                       {"spec": {"vars": [["x", 3, 2], ["y", 0, 1]], "cons": []}})
-    n = ctx.budget(500, 6000)
-    specs = _corpus() + [json.loads(json.dumps(s)) for s in EDGE_SPECS] + [rand_spec(ctx.rng) for _ in range(n)]
+    from harness.props import C06_hard as H
 
-    coq_cases, metas = [], []
-    for spec in specs:
+    bad = H.selftest_cnf(ctx.rng)
+    if bad:
+        ctx.internal_errors.append(bad)
+        return
+    thorough = ctx.tier == "thorough"
+    n = ctx.budget(340, 6000)
+    specs = _corpus() + [json.loads(json.dumps(s)) for s in EDGE_SPECS] + [rand_spec(ctx.rng) for _ in range(n)]
+    # round-2 families (HARDENING.md): A twins, M magnitudes, L names, I iterables; S and O below; H directed at the end
+    specs += [H.twin_spec(ctx.rng) for _ in range(ctx.budget(140, 1500))]
+    specs += [H.magnitude_spec(ctx.rng) for _ in range(ctx.budget(70, 700))]
+    specs += [H.relabel(ctx.rng, rand_spec(ctx.rng)) for _ in range(ctx.budget(40, 400))]
+    specs += [H.with_iterables(ctx.rng, rand_spec(ctx.rng) if ctx.rng.random() < 0.7 else H.twin_spec(ctx.rng)) for _ in range(ctx.budget(50, 500))]
+    for sp in specs:
+        if ctx.rng.random() < 0.2:
+            sp["seq"] = True
+
+    coq_cases, coq_proj, metas = [], [], []
+    coq_big, metas_big = [], []
+    events = {}
+    import time as _time
+    t_phase = {"start": _time.time()}
+
+    def process(spec):
         info, bad, stats = evaluate(spec)
+        fam = spec.get("family", "base")
         if info is None:
             ctx.evaluations += 1
             ctx.violation(f"encoder failed: {bad}", {"spec": spec})
-            continue
+            return
         if not info["built"]:
             ctx.count("unbuildable", info["why"][:40])
-            continue
+            return
         ctx.evaluations += 1
+        ctx.count("family", fam)
+        if spec.get("seq"):
+            ctx.count("family", "A-call-sequence")
         for k in kinds_of(info):
             ctx.count("constraint_kind", k)
+        for e in H.spec_events(spec):
+            events[e] = events.get(e, 0) + 1
+        if "base" in spec:
+            ctx.count("outcome", "large:" + ("empty-clause" if info["kind"] == "unsat" else "probed"))
+            if "clauses" in stats:
+                ctx.count("large_clauses", next(b for b in (1000, 5000, 20000, 100000, 10**9) if stats["clauses"] <= b))
+            if bad:
+                ctx.violation(f"CNF of the encoder does not have exactly the CP models (large instance): {bad}", {"spec": spec})
+            if stats.get("probes_sat", 0) and stats.get("probes", 0) > stats.get("probes_sat", 0):
+                ctx.nontriv(json.dumps(spec, sort_keys=True))
+            ctx.sample({"family": fam, "vars": len(spec["vars"]), "cons": [c[0] for c in spec["cons"]], **stats}, 6)
+            if info["cnf"] is None or len(info["cnf"]) <= (60000 if thorough else 8000):   # parsing 40k clauses costs coqc ~20 s
+                coq_big.append(coq_case(info))
+                metas_big.append((spec, info))
+            return
         ctx.count("outcome", "empty-clause" if info["kind"] == "unsat" else ("sat" if stats.get("cnf_models") else "unsat"))
         if "booleans" in stats:
             ctx.count("booleans", (stats["booleans"] // 10) * 10)
@@ -761,13 +857,51 @@ def run(ctx: Ctx):
         if (0 < ncp and stats.get("cnf_models", 0) and ncp < bs) or (ncp == 0 and info["kind"] == "cnf"):
             ctx.nontriv(json.dumps(spec, sort_keys=True))
         ctx.sample({"spec": spec, "clauses": None if info["cnf"] is None else len(info["cnf"]), **stats}, 3)
-        coq_cases.append(coq_case(info))
-        metas.append((spec, info))
+        term = coq_case(info)
+        if H.coq_span_ok(spec):
+            coq_cases.append(term)
+            metas.append((spec, info))
+        if H.coq_proj_ok(spec) and (fam in ("base", "H") or thorough or len(coq_cases) % 3 == 0):
+            coq_proj.append((term, spec, info))
 
+    for spec in specs:
+        process(spec)
+    # H: events of the encoder that the random phase has not produced often enough
+    for spec in H.directed(ctx.rng, events, want=3 if not thorough else 10):
+        process(spec)
+    for e in H.EVENTS:
+        ctx.count("event", e, events.get(e, 0))
+    # S: large structured instances judged by probes / slices (+ the size independent Coq encoder comparison)
+    for spec in H.big_specs(ctx.rng, thorough):
+        process(spec)
+    # O: option sweeps
+    for _ in range(ctx.budget(10, 80)):
+        spec = rand_spec(ctx.rng) if ctx.rng.random() < 0.6 else H.twin_spec(ctx.rng)
+        r = guarded(H.option_sweep, ctx.rng, spec, timeout=20)
+        if r[0] != "ok":
+            ctx.violation(f"option sweep: implementation {r[0]}: {r[1:]}", {"spec": spec, "kind": "options"})
+            continue
+        ctx.evaluations += r[1][1]
+        ctx.count("family", "O-option-sweep", r[1][1])
+        if r[1][0]:
+            ctx.violation(f"solve() options leak into the encoding: {r[1][0]}", {"spec": spec, "kind": "options"})
+
+    t_phase["python"] = _time.time()
+    # large instances: one or two per file so that they are compiled in parallel
+    fb = ctx.coq_check("encbig", IMPORTS, "cpmodel * option cnf",
+                       "fun c => wf_model (fst c) && obs_ok (fst c) (snd c)", coq_big, shard=2, timeout=900)
+    t_phase["coq_big"] = _time.time()
     failing = ctx.coq_check("enc", IMPORTS, "cpmodel * option cnf",
-                            "fun c => wf_model (fst c) && obs_ok (fst c) (snd c)", coq_cases, shard=60)
-    failing2 = ctx.coq_check("proj", IMPORTS, "cpmodel * option cnf",
-                             "fun c => cnf_projection_ok (fst c) (snd c)", coq_cases, shard=40)
+                            "fun c => wf_model (fst c) && obs_ok (fst c) (snd c)", coq_cases, shard=45)
+    failing = [len(coq_cases) + i for i in fb] + failing
+    coq_cases = coq_cases + coq_big
+    metas = metas + metas_big
+    t_phase["coq_enc"] = _time.time()
+    failing2 = [coq_proj[i][1:] for i in ctx.coq_check("proj", IMPORTS, "cpmodel * option cnf",
+                                                       "fun c => cnf_projection_ok (fst c) (snd c)", [t for t, _s, _i in coq_proj], shard=32)]
+    t_phase["coq_proj"] = _time.time()
+    ks = list(t_phase)
+    ctx.extra["phase_seconds"] = {ks[i]: round(t_phase[ks[i]] - t_phase[ks[i - 1]], 1) for i in range(1, len(ks))}
     ctx.notes.append("clause lists are compared as multisets (literals sorted inside each clause, clauses sorted, both sides sorted inside Coq): "
                      "_encode_all_different/_encode_eq_var/_encode_ne_var iterate Python sets in hash order")
     ctx.notes.append("theorems (coq/Props/C06.v, all inputs, no size bound) cover EVERY constraint kind the encoder accepts: variables/exactly-one/"
@@ -780,16 +914,15 @@ def run(ctx: Ctx):
                      "the encoder theorems assume lb <= ub (wf_model); checked on one fixed input per run")
     ctx.notes.append("semantics taken from the code: circuit forbids self loops (n=1 unsatisfiable), no_overlap is end_i<=start_j or end_j<=start_i, "
                      "cumulative generated with capacity >= 0 and demands >= 0 only; domains are ranges lb..ub (IntVar), non-empty")
-    for i in failing2:
-        spec, info = metas[i]
+    for spec, info in failing2:
         if not ctx.violations:
             ctx.violation("Coq model counter cnf_projection_ok rejects the captured clause list although the Python oracle accepted it",
                           {"spec": spec, "captured": info["cnf"], "lemma": "Cases/C06/proj_*.v corr"}, no_input=True)
 
     if (failing or ctx.broken) and not ctx.violations:
         found = False
-        for _ in range(3000):
-            spec = rand_spec(ctx.rng)
+        for k in range(3000):
+            spec = [rand_spec, H.twin_spec, H.magnitude_spec][k % 3](ctx.rng)
             info, bad, _ = evaluate(spec)
             if info is not None and info.get("built") and bad:
                 small = shrink(spec, still_fails)
@@ -809,8 +942,19 @@ def replay(obj):
     if not spec:
         print("replay names an unchecked obligation:", obj.get("unchecked") or obj.get("what"))
         return 1
+    if obj.get("kind") == "options":
+        import random
+
+        from harness.props.C06_hard import option_sweep
+
+        bad = None
+        for k in range(5):
+            bad = bad or option_sweep(random.Random(k), spec)[0]
+        print("spec:", json.dumps(spec))
+        print("option sweep verdict:", bad or "ok")
+        return 1 if bad else 0
     info, bad, stats = evaluate(spec)
-    print("spec:", json.dumps(spec))
+    print("spec:", json.dumps(spec)[:2000])
     if info is not None and info.get("built"):
         print("captured:", info["kind"], info["cnf"] if info["cnf"] is None or len(info["cnf"]) < 60 else f"{len(info['cnf'])} clauses")
     print("stats:", stats)
